@@ -65,5 +65,12 @@ for d in sorted(glob.glob(os.path.join(R.VERIF, 'seeded', 'C*-*'))):
         json.dump(meta, open(mj, 'w'), indent=1)
     finally:
         shutil.rmtree(sc, ignore_errors=True)
-    json.dump(matrix, open(mp, 'w'), indent=1)
+    # several shards may run in parallel (private QV_CACHE each): merge under a lock
+    import fcntl
+    with open(mp + '.lock', 'w') as lk:
+        fcntl.flock(lk, fcntl.LOCK_EX)
+        cur = json.load(open(mp)) if os.path.exists(mp) else {}
+        if name in matrix:
+            cur[name] = matrix[name]
+        json.dump(cur, open(mp, 'w'), indent=1, sort_keys=True)
 print('done')
